@@ -262,7 +262,8 @@ def eval_roundtrip(case):
             if want["issuer"] and (p["prefix"] != want["issuer"] or p["issuer_param"] != want["issuer"]):
                 out.append((f"C15|uri|issuer_not_in_prefix_and_parameter:{iss_cls}", f"{src!r}: prefix {p['prefix']!r}, parameter {p['issuer_param']!r}"))
         try:
-            plain = fields_of(factory("plain").from_uri(src))
+            # (for the stock class itself this is the reload just made)
+            plain = got if facname == "plain" else fields_of(factory("plain").from_uri(src))
         except Exception as e:  # noqa: BLE001
             out.append((f"C15|uri|stock_class_reader:raises:{type(e).__name__}:{tag}", f"TOTP.from_uri({src!r}) raised {e!r}"))
         else:
